@@ -122,7 +122,7 @@ fn sign_then_verify<C: BlsSignatureImpl + PartialEq>(c: &Value, keys: &[SecretKe
     if let Err(e) = sig.verify(&pk, m) { return Some(format!("honest signature rejected: {}", e)); }
     // through the byte encodings
     let skb: Vec<u8> = Vec::from(sk);
-    let sk2 = SecretKey::<C>::try_from(skb.as_slice()).ok()?;
+    let sk2 = match SecretKey::<C>::try_from(skb.as_slice()) { Ok(k) => k, Err(e) => return Some(format!("the key's own byte encoding is refused on import: {}", e)) };
     let pkb: Vec<u8> = Vec::from(&pk);
     let pk2 = match PublicKey::<C>::try_from(pkb.as_slice()) { Ok(x) => x, Err(e) => return Some(format!("public key bytes rejected: {}", e)) };
     let sgb: Vec<u8> = Vec::from(&sig);
